@@ -2,7 +2,7 @@
 import numpy as np
 
 from driver import Check, main
-from vlib import use_repo
+from vlib import MachineryError, use_repo
 
 use_repo()
 import traffic_weaver.sorted_array_utils as sau  # noqa: E402
@@ -88,9 +88,52 @@ def random_cases(rng, n):
                    "enc": {"kind": "rat"}, "container": rng.choice(["array", "list"])}
 
 
+def apalache_runs(c):
+    """(A3) the integer version of the scans (spec/apalache/SearchInt.tla) checked symbolically by Apalache: arrays and queries
+    are UNBOUNDED integers, only the lengths are fixed.  A violated AlgoCorrect is a fault of the specification (exit 2); a
+    run that does not finish in time is recorded as such and decides nothing."""
+    import os
+    import re
+    import shutil
+    import subprocess
+    import time
+    from vlib import SPEC
+    out = []
+    if not shutil.which("apalache-mc"):
+        return [{"status": "apalache-mc not installed"}]
+    wd = c.scratch.path("apalache")
+    os.makedirs(wd, exist_ok=True)
+    shutil.copy(os.path.join(SPEC, "apalache", "SearchInt.tla"), wd)
+    jobs = [("CInit32", "NeverDone", 14, True), ("CInit32", "AlgoCorrect", 14, False)]
+    if c.thorough:
+        jobs += [("CInit43", "AlgoCorrect", 18, False), ("CInit53", "AlgoCorrect", 20, False)]
+    for cinit, inv, length, expect_error in jobs:
+        t0 = time.time()
+        try:
+            p = subprocess.run(["apalache-mc", "check", "--cinit=" + cinit, "--inv=" + inv, "--length=%d" % length,
+                                "--out-dir=" + os.path.join(wd, "out"), "SearchInt.tla"], cwd=wd, stdout=subprocess.PIPE,
+                               stderr=subprocess.STDOUT, timeout=600, text=True, errors="replace")
+            txt = p.stdout
+        except subprocess.TimeoutExpired:
+            out.append({"instance": cinit, "invariant": inv, "status": "timeout (decides nothing)"})
+            continue
+        ok = "EXITCODE: OK" in txt and "no error up to computation length" in txt
+        err = "Checker has found an error" in txt
+        if not ok and not err:
+            out.append({"instance": cinit, "invariant": inv, "status": "did not run: " + " ".join(txt.split()[-12:])})
+            continue
+        if expect_error != err:
+            raise MachineryError("Apalache %s %s: %s" % (cinit, inv, "Done is unreachable (vacuous)" if expect_error else
+                                                         "the scans do not meet the definition:\n" + txt[-1500:]))
+        out.append({"instance": cinit, "invariant": inv, "length": length, "wall_s": round(time.time() - t0, 1),
+                    "status": "witness found (the scan terminates)" if err else "no counterexample over unbounded integers"})
+    return out
+
+
 def run():
     c = Check("C10")
     t = c.tier
+    apalache = apalache_runs(c) if not c.replay_path else []
     # (A1) the scans, transcribed in PlusCal, equal the definition on the bounded instance
     c.model("MC_SearchAlgo", "MC_SearchAlgo_%s.cfg" % t)
     # (A2) lattice of inputs: lemmas of the definition + emission of every (array, queries) pair
@@ -119,8 +162,8 @@ def run():
               "rationals with queries equal to / 1 ulp beside / between / beyond elements; non-trivial = at least "
               "2 elements and 2 queries, distinct by (array, queries, encoding)")
     c.coverage_extra = {"lattice_cases_from_tlc": lattice, "random_float_cases": len(cases) - lattice,
-                        "calls_per_case": len(VARIANTS)}
-    c.assumptions = ["TLC 1.8 and CommunityModules Json/IOUtils",
+                        "calls_per_case": len(VARIANTS), "apalache_symbolic_runs": apalache}
+    c.assumptions = ["TLC 1.8 and CommunityModules Json/IOUtils", "Apalache 0.58 (symbolic run of the integer scans, additional to TLC)",
                      "floats base+k*ulp inside one binade are an exact affine image of the integers k given to TLC",
                      "harness projection of the returned index arrays to Python ints"]
     return c.finish(exhaustive=False)
